@@ -49,6 +49,11 @@ def _():
         except InvalidVersionError: pass
     return V("1+\u212a").to_string() == "1+k" and V("1.0\u00a0").to_string() == "1.0"
 
+@w("D32")
+def _():
+    c = C("!=1.2.dev1+1 , ==1.2.dev1+1")
+    return c.is_empty() and not C(">1.2.dev1+1").allows_any(V("1.2.dev1+1")) and str(C(">=1.2.3+local").intersect(V("1.2.3"))) == ">=1.2.3+local,<1.2.4"
+
 if __name__ == "__main__":
     ids = sys.argv[1:] or list(W)
     bad = 0
